@@ -100,6 +100,8 @@ def _value_post(e):
     out = [("result has the instruction's size", len(items) == row.size)]
     if len(items) != row.size:
         return out
+    if row.post is not None:
+        return out + list(row.post(old, items, e.S, e.P, e.A))      # (old bytes, new bytes) in little-endian order
     if row.expected is not None:
         exp = row.expected(e.word_old, e.S, e.P, e.A)
         got = MD.buf_word(e.result, row.endian)
@@ -128,7 +130,7 @@ def value_contracts(prop):
         cls = _cls(row)
         out.append(Contract(
             row.cls + ".apply", prop, label="%s.apply[value]" % row.cls.split("ppci.arch.")[1],
-            grid=[{"row": row}], modules=MODS, make=_mk, replay_args=_replay, call=_call, sample_inputs=_samples,
+            grid=[{"row": row}], modules=MODS, make=_mk, replay_args=_replay, call=_call, sample_inputs=_samples, setup=row.setup,
             requires=lambda e: _pre(e) + [e.row.rep(e.S, e.P, e.A)],
             ensures=_value_post,
             # a conservative rejection of a representable value is not what C10/C11 forbid
@@ -143,7 +145,7 @@ def reject_contracts(prop):
     for row in RS.all_rows():
         out.append(Contract(
             row.cls + ".apply", prop, label="%s.apply[reject]" % row.cls.split("ppci.arch.")[1],
-            grid=[{"row": row}], modules=MODS, make=_mk, replay_args=_replay, call=_call, sample_inputs=_samples,
+            grid=[{"row": row}], modules=MODS, make=_mk, replay_args=_replay, call=_call, sample_inputs=_samples, setup=row.setup,
             requires=lambda e: _pre(e) + [not_(e.row.rep(e.S, e.P, e.A))],
             raises=[(Exception, lambda e: True)],
             ensures=lambda e: [],
